@@ -92,9 +92,12 @@ def hist_coverage(layer: Dict[str, Any]) -> Dict[str, Any]:
     }
 
 
+DISPATCH_BUDGET = {"quick": 640, "thorough": 32000}
+
+
 def control_check(prop: str, tier: str, seed: int, *, mon_props: Optional[List[str]] = None,
                   targets: Optional[List[str]] = None, assumptions: Optional[List[str]] = None,
-                  level: str = "proof") -> int:
+                  level: str = "proof", with_dispatcher: bool = False) -> int:
     """the common shape: theorems about the control model + history correspondence + monitors"""
     v = fw.Verdict(prop, tier, seed, level)
     targets = targets or [f"Properties.{prop}"]
@@ -102,6 +105,11 @@ def control_check(prop: str, tier: str, seed: int, *, mon_props: Optional[List[s
     n_hist, steps = HIST_BUDGET[tier]
     layer = layers.hist_layer(seed, n_hist, steps)
     corr_ok = use_hist_layer(v, prop, layer, mon_props or [prop])
+    dl = None
+    if with_dispatcher:
+        # the property's clause about the built-in dispatcher: the real Dispatcher on mixed states
+        dl = layers.dispatch_layer(seed, DISPATCH_BUDGET[tier])
+        corr_ok = use_simple_layer(v, prop, dl, "dispatch", mon_props or [prop]) and corr_ok
     if (not ps.ok or not corr_ok) and not v.violations:
         # a proof obligation or the correspondence broke: search harder for a failing input
         big = layers.hist_layer(seed + 7919, n_hist * 6, steps)
@@ -110,6 +118,13 @@ def control_check(prop: str, tier: str, seed: int, *, mon_props: Optional[List[s
     if not ps.ok:
         v.broken(f"proof obligation for {prop}: {ps.failing_obligation()}", {"theorem_or_build": ps.failing_obligation(), "targets": targets})
     v.coverage = {**fw.proof_coverage(ps), **hist_coverage(layer)}
+    if dl is not None:
+        v.coverage["dispatcher_runs"] = dl["cases"]
+        v.coverage["assignment_problems"] = dl["steps"]
+        v.coverage["pairs_checked"] = dl["rows"]
+        v.coverage["rule"] = v.coverage.get("rule", "") + (
+            "; dispatcher clause: the real Dispatcher.generate_instructions on states produced by short adversarial histories (mixed activities, charge levels, "
+            "shifts, fleets incl. vehicles in two fleets and requests open to all, already assigned requests), every pair checked by the Lean driver")
     v.assumptions = (assumptions or []) + ["well-formed environment (unique ids, registered mechatronics/plug types)"]
     return v.finish()
 
@@ -136,12 +151,12 @@ def check_C07(tier: str, seed: int) -> int:
 
 @register("C10")
 def check_C10(tier: str, seed: int) -> int:
-    return control_check("C10", tier, seed)
+    return control_check("C10", tier, seed, with_dispatcher=True)
 
 
 @register("C17")
 def check_C17(tier: str, seed: int) -> int:
-    return control_check("C17", tier, seed)
+    return control_check("C17", tier, seed, with_dispatcher=True)
 
 
 def use_simple_layer(v: fw.Verdict, prop: str, layer: Dict[str, Any], layer_name: str, mon_props: List[str]) -> bool:
@@ -479,4 +494,42 @@ def check_C15(tier: str, seed: int) -> int:
                      "'covers exactly the interval' is read as: the steps taken are exactly those that begin before the end time (for an interval that is not a multiple of dt "
                      "the last step ends after the end time; run and repeated step agree on this)",
                      "uuid4 instance ids and session ids are compared up to renaming"]
+    return v.finish()
+
+
+
+@register("C12")
+def check_C12(tier: str, seed: int) -> int:
+    v = fw.Verdict("C12", tier, seed, "proof")
+    ps = fw.ProofStatus("C12", ["Properties.C12"])
+    dl = layers.dispatch_layer(seed, DISPATCH_BUDGET[tier])
+    ok1 = use_simple_layer(v, "C12", dl, "dispatch", ["C12"])
+    if (not ps.ok or not ok1) and not v.violations:
+        big = layers.dispatch_layer(seed + 7919, DISPATCH_BUDGET[tier] * 6)
+        use_simple_layer(v, "C12", big, "dispatch", ["C12"])
+        v.notes.append(f"escalated search: {big['cases']} further dispatcher runs")
+    if not ps.ok:
+        v.broken(f"proof obligation for C12: {ps.failing_obligation()}", {"theorem_or_build": ps.failing_obligation()})
+    cov = fw.proof_coverage(ps)
+    cov["evaluations"] = dl["steps"]
+    cov["distinct_nontrivial"] = len(dl["shapes"])
+    cov["rule"] = ("function-level: worlds of 1-9 vehicles (BEV and ICE, autonomous and human drivers on and off shift, 0-2 fleets per vehicle) taken through 0-6 steps of an "
+                   "adversarial history (so that activities, positions, charge levels and assigned requests are mixed) plus 0-8 fresh requests; dispatcher configuration varied "
+                   "(valid_dispatch_states in 5 sets, matching range in {20,60,150,250} km, base range in {30,100,300} km); the real Dispatcher.generate_instructions runs with "
+                   "assignment_ops.find_assignment observed; for every assignment problem Lean compares the assignees/targets with the model filters (eligible, waiting, entities "
+                   "paired for an earlier fleet excluded, fleets in sorted order) and accepts the solution only if checkFleet passes with the dual potentials computed by the "
+                   "harness's own Hungarian method; evaluations = assignment problems; distinct_nontrivial = distinct (#vehicles, #requests (capped at 4), orientation, fleet "
+                   "problem?, #valid states) tuples")
+    cov["samples"] = [dl["sample"]]
+    cov["dispatcher_runs"] = dl["cases"]
+    cov["pairs_certified"] = dl["rows"]
+    cov["trusted_base"] = cov["trusted_base"] + [
+        "scipy.optimize.linear_sum_assignment is NOT modelled and NOT trusted: each of its answers is accepted only with a dual certificate checked by the Lean function "
+        "Hive.Dispatch.checkFleet, whose soundness is the theorem Hive.C12.checkFleet_sound; the potentials come from an untrusted Hungarian implementation in the harness",
+        "h3.h3_distance (the grid distance) and mechatronics.range_remaining_km are oracles: recorded from the libraries, universally quantified in the theorems"]
+    v.coverage = cov
+    v.assumptions = ["the theorem is about accepted answers (translation validation): that every answer of the implementation is accepted is observed on the runs of this check, "
+                     "not proved for all states",
+                     "a vehicle without any membership is offered to every fleet (implementation behaviour relied upon by tests/test_local_simulation_runner.py; the resulting "
+                     "pairings with fleet requests are known finding F6 under C10)"]
     return v.finish()
